@@ -33,6 +33,10 @@ type c15Case struct {
 	// through its own extends / import clause ("" = no hop). The referrer's relative names still resolve
 	// against the referrer's directory, not the directory of whoever asked first.
 	Hop string `json:"hop,omitempty"`
+	// Others (via=get only): further spellings of other templates, all looked up at the same time on one Set
+	// by one goroutine each; every lookup must still be answered with the template its own name denotes and
+	// the loader must see nothing but canonical forms of the names that were asked for.
+	Others []string `json:"others,omitempty"`
 }
 
 const c15Entry = "/hop/entry"
@@ -66,7 +70,7 @@ func (r *recLoader) Open(p string) (io.ReadCloser, error) {
 }
 
 type recCache struct {
-	mu    sync.Mutex
+	mu    *sync.Mutex
 	m     map[string]*jet.Template
 	trace *[]traceEv
 }
@@ -151,6 +155,11 @@ func genC15(t *rapid.T) c15Case {
 	c.Exts = c15ExtLists[rapid.IntRange(0, len(c15ExtLists)-1).Draw(t, "exts")]
 	c.Ext = c.Exts[rapid.IntRange(0, len(c.Exts)-1).Draw(t, "ext")]
 	c.OS = rapid.IntRange(0, 3).Draw(t, "os") == 0
+	if c.Via == "get" && !c.OS && rapid.IntRange(0, 2).Draw(t, "concurrent") == 0 {
+		for k := rapid.IntRange(1, 3).Draw(t, "nothers"); k > 0; k-- {
+			c.Others = append(c.Others, genC15Spelling(t, "other"))
+		}
+	}
 	if c.Via != "get" {
 		c.Hop = rapid.SampledFrom([]string{"", "", "extends", "import"}).Draw(t, "hop")
 		if c.Hop == "import" && c.Via == "extends" {
@@ -272,7 +281,7 @@ func (c c15Case) run(spelling string, tmp string) (trace []traceEv, out jetrun.O
 		inner = m
 	}
 	rl := &recLoader{inner: inner, trace: &trace}
-	rc := &recCache{m: map[string]*jet.Template{}, trace: &trace}
+	rc := &recCache{mu: &rl.mu, m: map[string]*jet.Template{}, trace: &trace}
 	s := jet.NewSet(rl, jet.WithCache(rc), jet.WithTemplateNameExtensions(c.Exts))
 	entry := c.referrer()
 	if c.Via == "get" {
@@ -293,7 +302,86 @@ func (c c15Case) run(spelling string, tmp string) (trace []traceEv, out jetrun.O
 	return trace, out, names, outside
 }
 
+// judgeC15Concurrent: several names looked up at the same time on one Set.
+func judgeC15Concurrent(c c15Case) (v core.Verdict) {
+	spellings := append([]string{c.Spelling, c.Alt}, c.Others...)
+	files := map[string]string{}
+	for _, sp := range spellings {
+		p := c.canonical(sp) + c.Ext
+		files[p] = "T:" + p
+	}
+	allowed := map[string]bool{}
+	expect := map[string]string{} // spelling -> file that answers it: first configured extension that exists
+	for _, sp := range spellings {
+		canon := c.canonical(sp)
+		allowed[canon] = true
+		for _, e := range c.Exts {
+			allowed[canon+e] = true
+			if _, ok := files[canon+e]; ok && expect[sp] == "" {
+				expect[sp] = canon + e
+			}
+		}
+	}
+	v.NonTrivial = true
+	v.Label("via:get-concurrent", fmt.Sprintf("concurrent-names:%d", len(spellings)))
+	var trace []traceEv
+	m := jet.NewInMemLoader()
+	for p, content := range files {
+		m.Set(p, content)
+	}
+	rl := &recLoader{inner: m, trace: &trace}
+	rc := &recCache{m: map[string]*jet.Template{}, trace: &trace}
+	rc.mu = &rl.mu // one lock for the shared trace
+	s := jet.NewSet(rl, jet.WithCache(rc), jet.WithTemplateNameExtensions(c.Exts))
+	var wg sync.WaitGroup
+	var pmu sync.Mutex
+	problem := ""
+	start := make(chan struct{})
+	for g := 0; g < 2*len(spellings); g++ {
+		wg.Add(1)
+		go func(sp string) {
+			defer wg.Done()
+			<-start
+			for round := 0; round < 12; round++ {
+				t, o := jetrun.Get(s, sp)
+				msg := ""
+				if o.Failed() {
+					msg = fmt.Sprintf("GetTemplate(%q) failed although %s exists: %s", sp, expect[sp], o)
+				} else if t.Name != expect[sp] {
+					msg = fmt.Sprintf("GetTemplate(%q) returned the template %q, want %q", sp, t.Name, expect[sp])
+				} else if out := jetrun.Exec(t, nil, nil); out.Failed() || out.Out != files[expect[sp]] {
+					msg = fmt.Sprintf("GetTemplate(%q) renders %s, want %q", sp, out, files[expect[sp]])
+				}
+				if msg != "" {
+					pmu.Lock()
+					if problem == "" {
+						problem = msg
+					}
+					pmu.Unlock()
+					return
+				}
+			}
+		}(spellings[g%len(spellings)])
+	}
+	close(start)
+	wg.Wait()
+	if problem != "" {
+		v.Failf("names %q looked up concurrently (exts %q): %s", spellings, c.Exts, problem)
+		return
+	}
+	for _, ev := range trace {
+		if !cleanAbs(ev.Path) || !allowed[ev.Path] {
+			v.Failf("names %q looked up concurrently (exts %q): %s received %q, which is not the canonical form of any of them plus a configured extension", spellings, c.Exts, ev.Op, ev.Path)
+			return
+		}
+	}
+	return
+}
+
 func judgeC15(c c15Case) (v core.Verdict) {
+	if c.Via == "get" && len(c.Others) > 0 {
+		return judgeC15Concurrent(c)
+	}
 	canon := c.canonical(c.Spelling)
 	if canon != c.canonical(c.Alt) {
 		panic("respell changed the canonical form: " + c.Spelling + " vs " + c.Alt)
@@ -401,7 +489,7 @@ func judgeC15(c c15Case) (v core.Verdict) {
 
 func TestC15(t *testing.T) {
 	core.Run(t, "C15",
-		"name spellings from segments {a,b,tpl.jet,d1,d2,.,..,''} with/without leading and trailing slash, used via GetTemplate/extends/import/include (static and computed)/exec/includeIfExists from a referrer at directory depth 0-3, five extension lists, in-memory loader or OSFileSystemLoader with marker files outside its root; recording Loader and Cache wrappers; plus a second spelling of the same canonical name; non-trivial = spelling differs from its canonical form at referrer depth>=1, or has more '..' than the depth",
+		"name spellings from segments {a,b,tpl.jet,d1,d2,.,..,''} with/without leading and trailing slash, used via GetTemplate/extends/import/include (static and computed)/exec/includeIfExists from a referrer at directory depth 0-3, five extension lists, in-memory loader or OSFileSystemLoader with marker files outside its root; recording Loader and Cache wrappers; plus a second spelling of the same canonical name; via GetTemplate also 3-5 names looked up at the same time by two goroutines each on one Set; non-trivial = spelling differs from its canonical form at referrer depth>=1, or has more '..' than the depth",
 		genC15, judgeC15)
 }
 
